@@ -48,6 +48,9 @@ def PT(name, leaf, structure, value):
 
 FL = lambda d: ["arr", "Float", d]
 PYTREE_CORPUS = [
+    # a leaf WIDENS a broadcastable variadic binding made by an earlier parameter, a later leaf fails: the message must show (1, 3)
+    dict(params=[P("w", "*#b c"), PT("x", FL("*#b c"), None, ["t", [AR(2, 3, 4), AR(5, 3, 4)]])], ret=None, shapes={"w": [1, 3, 4]}),
+    dict(params=[P("w", "*#b c"), PT("x", FL("*#b c"), "T", ["l", [AR(2, 3, 4), AR(2, 3, 9)]]), P("z", "c")], ret=None, shapes={"w": [1, 3, 4], "z": [4]}),
     # a later leaf conflicts with an axis bound by an earlier leaf of the SAME tree: nothing of that tree may be listed
     dict(params=[PT("x", FL("n"), "T", ["t", [AR(3), AR(4)]])], ret=None),
     dict(params=[P("w", "m"), PT("x", FL("n m"), None, ["l", [AR(3, 5), AR(3, 6)]])], ret=None, shapes={"w": [5]}),
@@ -63,8 +66,8 @@ PYTREE_CORPUS = [
 
 def gen_pytree_case(rng):
     """a call whose PyTree argument has several array leaves; usually one leaf (not the first) breaks an axis bound earlier"""
-    dims = rng.choice(["n", "n m", "?k m", "*b n", "k n"])
-    rank = {"n": 1, "n m": 2, "?k m": 2, "*b n": 2, "k n": 2}[dims]
+    dims = rng.choice(["n", "n m", "?k m", "*b n", "k n", "*#b n"])
+    rank = {"n": 1, "n m": 2, "?k m": 2, "*b n": 2, "k n": 2, "*#b n": 2}[dims]
     nleaf = rng.choice([2, 3, 4])
     base = [rng.choice([2, 3]) for _ in range(rank)]
     leaves = [list(base) for _ in range(nleaf)]
@@ -74,7 +77,12 @@ def gen_pytree_case(rng):
     val = [cont, {("k%d" % i): AR(*l) for i, l in enumerate(leaves)}] if cont == "d" else [cont, [AR(*l) for l in leaves]]
     params = []
     shapes = {}
-    if rng.random() < .6:
+    if dims == "*#b n":
+        # an earlier parameter binds the broadcastable variadic axis to (1,); the first leaf widens it, a later leaf fails
+        params.append(P("w", "*#b n")); shapes["w"] = [1, base[-1]]
+        if rng.random() < .7:
+            leaves[-1][0] = base[0] + 2
+    elif rng.random() < .6:
         params.append(P("w", rng.choice(["m", "n", "q r"]))); shapes["w"] = [base[-1]] if params[-1]["dim"] != "q r" else [4, 5]
     params.append(PT("x", FL(dims), rng.choice([None, "T"]), val))
     if rng.random() < .5:
@@ -106,11 +114,15 @@ def main():
             sh = case["shapes"][nm]
             if sh:
                 i = R.rng.randrange(len(sh)); sh[i] = sh[i] + R.rng.choice([1, 2, 3])
+                for p in case["params"]:
+                    if p["name"] == nm and p.get("decoy"):
+                        p["union"][0] = "%s *q_ %d" % (p["union"][0].split()[0], sh[-1] + 2)      # keep the decoy alternative unmatchable
         if case["params"] and R.rng.random() < .35:
             case["ints"] = {"k": R.rng.choice([0, 1, 2, 3])}
             p = R.rng.choice(case["params"])
             if "*" not in p["dim"] and "..." not in p["dim"]:
                 p["dim"] = (p["dim"] + " {k}").strip()
+                p.pop("union", None); p.pop("decoy", None)      # (the decoy union was built for the old dims and shape)
                 case["shapes"][p["name"]] = case["shapes"][p["name"]] + [case["ints"]["k"] if R.rng.random() < .8 else 5]
         cases.append(case)
     npt = 4000 if R.thorough else 40
@@ -120,6 +132,10 @@ def main():
     for c in cases[len(CORPUS):]:
         if R.rng.random() < .5:
             c["local_class"] = R.rng.choice(["first", "last"])     # an extra, always well-typed parameter `cfg: Config` (class created per function)
+    for c in cases[len(CORPUS):]:
+        if c["params"] and R.rng.random() < .3:
+            c["defaults"] = R.rng.randrange(len(c["params"]))     # parameters from here on have defaults; the call passes those very objects
+    cases.append(dict(CORPUS[2], defaults=1, dtypes={}, ret_dtype="float32")); cases.append(dict(CORPUS[3], defaults=0, dtypes={}, ret_dtype="float32"))
     for c in cases:
         c["variants"] = [{"checker": chk, "remove_stack": rs} for chk in ("typeguard", "beartype") for rs in (False, True)]
     nw = 8
@@ -135,7 +151,7 @@ def main():
     # model (cases without unions)
     terms, mcases = [], []
     for c in cases:
-        if any("union" in p or "pytree" in p for p in c["params"]) or (c["ret"] and "pytree" in c["ret"]):
+        if any(("union" in p and not p.get("decoy")) or "pytree" in p for p in c["params"]) or (c["ret"] and "pytree" in c["ret"]):
             continue
         ps = [c02.use_coq(p["dim"], cat_dtypes[p["cat"]], c["shapes"][p["name"]], c["dtypes"].get(p["name"], "float32")) for p in c["params"]]
         ret = "(@None step)" if not c["ret"] else "(Some %s)" % c02.use_coq(c["ret"]["dim"], cat_dtypes[c["ret"]["cat"]], c["ret_shape"], c["ret_dtype"])
@@ -168,7 +184,7 @@ def main():
     ncalls, nontriv, samples = 0, set(), []
     for c in cases:
         names = [p["name"] for p in c["params"]]
-        desc = "params %s ret %s shapes %s ret_shape %s" % ([(p["name"], ("PyTree", p["pytree"], p["value"]) if "pytree" in p else p.get("dim", p.get("union")), p["cat"]) for p in c["params"]], c["ret"], c["shapes"], c["ret_shape"])
+        desc = ("" if c.get("defaults") is None else "[parameters from #%d on have defaults and are passed those very objects] " % c["defaults"]) + "params %s ret %s shapes %s ret_shape %s" % ([(p["name"], ("PyTree", p["pytree"], p["value"]) if "pytree" in p else p.get("dim", p.get("union")), p["cat"]) for p in c["params"]], c["ret"], c["shapes"], c["ret_shape"])
         for var, r in zip(c["variants"], results[id(c)]):
             ncalls += 1
             o = r["outcome"]
@@ -185,6 +201,9 @@ def main():
                 if r["fn"] is None or not r["fn"].endswith("fname"):
                     R.violation("property", "the error does not name the function (got %r): %s" % (r["fn"], desc), {"case": c, "result": r}, key=dict(key_base, kind="fn-name"))
                 if r["stage"] == "params":
+                    if r["blamed"] is None and r.get("first_failing"):
+                        R.violation("property", "the error names no parameter although parameter %r violates its annotation given the ones before it: %s" % (r["first_failing"], desc),
+                                    {"case": c, "variant": var, "result": r}, key=dict(key_base, kind="no-parameter-named"))
                     if r["blamed"] is not None:
                         if r["blamed"] not in names or not r.get("blame_fails") or not r.get("blame_pre_pass"):
                             R.violation("property", "the blamed parameter %r does not violate its annotation given the parameters before it (predecessors pass: %s, blamed fails: %s): %s" % (
